@@ -25,6 +25,13 @@
 //		metric: m p (manual reader, periodic reader around a recording exporter); `-` = none
 //
 // contexts c: b background, f live with a far deadline, c already cancelled, e 1 ms timeout that has expired
+// every script (not the concurrent variant) ends with one more observation, the SETTLE: `settle[;deltas]` — after the last op
+//
+//	the harness waits until every goroutine the calls started has finished (trace provider: until the exporter of every
+//	stock processor that was taken out of service has been shut down — a wait for a condition with a 3 s limit that is
+//	only hit on failure, marked `settle!`; log/metric: until the counters have been quiet for 3 ms) and reports what
+//	arrived since the last op
+//
 // obs: <res>[;<i>.<field><delta>…]…   res: - ok err:<flags c d s o> sdk noop v<total> panic hang
 //
 //	fields: a OnStart, e OnEnd/OnEmit, f ForceFlush, s Shutdown, n items exported (metric: Export calls);
@@ -237,7 +244,20 @@ func atoi(s string) int { n, _ := strconv.Atoi(s); return n }
 // runner executes the ops of one script; emit receives one observation token per op.
 type runner interface {
 	op(tok string) string // returns the result token
+	track(tok string)     // bookkeeping for the settle wait (also for ops executed through constructor options)
+	settle() bool         // wait until everything the calls started has finished; true = timed out
 	close()
+}
+
+// settleTimeouts counts settle waits that hit their limit in this process: after two of them the limit is cut to 30 ms
+// (the tree is broken, the verdict is certain, do not spend 3 s on every further script).
+var settleTimeouts int
+
+func settleLimit() time.Duration {
+	if settleTimeouts >= 2 {
+		return 30 * time.Millisecond
+	}
+	return 3 * time.Second
 }
 
 // ---------------------------------------------------------------- trace provider
@@ -251,10 +271,16 @@ type tpRun struct {
 	spans   map[int]trace.Span
 	gate    *gateCtl
 	fly     chan string // result channel of the parked End, nil if none
+	// bookkeeping for the settle wait only (never used for judging): registrations, provider shut down, processors whose
+	// exporter has to be shut down eventually
+	regs []int
+	shut bool
+	must []bool
 }
 
 func newTP(kinds []string, optN int, ops []string) (*tpRun, int) {
 	r := &tpRun{w: newWorld(len(kinds)), kinds: kinds, tracers: map[int]trace.Tracer{}, spans: map[int]trace.Span{},
+		regs: make([]int, len(kinds)), must: make([]bool, len(kinds)),
 		gate: &gateCtl{parked: make(chan struct{}), release: make(chan struct{})}}
 	far := sdktrace.WithBatchTimeout(time.Hour)
 	for i, kk := range kinds {
@@ -409,6 +435,61 @@ func (r *tpRun) op(tok string) string {
 	return "?"
 }
 
+func (r *tpRun) track(tok string) {
+	p := strings.Split(tok, ":")
+	i := 0
+	if len(p) > 1 {
+		i = atoi(p[1])
+	}
+	switch p[0] {
+	case "reg":
+		if !r.shut && i < len(r.regs) {
+			r.regs[i]++
+		}
+	case "unr":
+		if !r.shut && i < len(r.regs) && r.regs[i] > 0 {
+			r.regs[i]--
+			r.must[i] = true
+		}
+	case "sd":
+		if !r.shut {
+			r.shut = true
+			for j := range r.regs {
+				if r.regs[j] > 0 {
+					r.must[j] = true
+					r.regs[j] = 0
+				}
+			}
+		}
+	case "psd":
+		if i < len(r.must) {
+			r.must[i] = true
+		}
+	}
+}
+
+// settle waits until the exporter of every stock processor that was taken out of service has been shut down (the batch
+// processor's drain runs before that in the same goroutine, so its exports are in then).
+func (r *tpRun) settle() bool {
+	done := func() bool {
+		for i, k := range r.kinds {
+			if r.must[i] && (k == "sr" || k == "br") && r.w.cs[i].s.Load() < 1 {
+				return false
+			}
+		}
+		return true
+	}
+	deadline := time.Now().Add(settleLimit())
+	for !done() {
+		if time.Now().After(deadline) {
+			settleTimeouts++
+			return true
+		}
+		time.Sleep(200 * time.Microsecond)
+	}
+	return false
+}
+
 func (r *tpRun) close() {
 	if r.fly != nil {
 		r.gate.release <- struct{}{}
@@ -428,6 +509,21 @@ type lpRun struct {
 	lp      *sdklog.LoggerProvider
 	loggers map[int]otellog.Logger
 	fuzzy   bool
+	raced   bool // a ForceFlush / Shutdown with a done context has been made
+}
+
+func (r *lpRun) track(tok string) {
+	if strings.HasSuffix(tok, ":c") || strings.HasSuffix(tok, ":e") {
+		r.raced = true
+	}
+}
+
+// settle: whatever a raced call left in the export buffer may still arrive (or never, if it was cut off): wait for quiet.
+func (r *lpRun) settle() bool {
+	if r.fuzzy && r.raced {
+		r.w.quiesce()
+	}
+	return false
 }
 
 func newLP(kinds []string) *lpRun {
@@ -515,6 +611,20 @@ type mpRun struct {
 	readers []sdkmetric.Reader
 	meters  map[int]metric.Meter
 	fuzzy   bool
+	raced   bool
+}
+
+func (r *mpRun) track(tok string) {
+	if strings.HasSuffix(tok, ":c") || strings.HasSuffix(tok, ":e") {
+		r.raced = true
+	}
+}
+
+func (r *mpRun) settle() bool {
+	if r.fuzzy && r.raced {
+		r.w.quiesce()
+	}
+	return false
 }
 
 func newMP(kinds []string) *mpRun {
@@ -642,11 +752,17 @@ func runScript(toks []string, emit func(string)) {
 	defer r.close()
 	if !strings.HasPrefix(kind, "c") {
 		for i, o := range ops {
+			r.track(o)
 			if i < skip {
 				emit(w.obs("-")) // registered through the constructor option
 				continue
 			}
 			emit(w.obs(r.op(o)))
+		}
+		if r.settle() {
+			emit(w.obs("settle!"))
+		} else {
+			emit(w.obs("settle"))
 		}
 		return
 	}
@@ -805,6 +921,9 @@ func emitAll(t *testing.T, out *vOut, lines []string) {
 		obs, done, _ := runChild(t, batch, false, 60*time.Second)
 		if done && len(obs) >= len(batch) {
 			for k, l := range batch {
+				if strings.Contains(obs[k], "settle!") {
+					crashes++
+				}
 				out.Line("%s => %s", l, obs[k])
 			}
 			continue
@@ -812,7 +931,7 @@ func emitAll(t *testing.T, out *vOut, lines []string) {
 		// crash or hang somewhere in the batch: the culprit may be an earlier script's goroutine → all alone
 		for _, l := range batch {
 			o := runOne(t, l)
-			if strings.HasSuffix(o, "panic") || strings.HasSuffix(o, "hang") {
+			if strings.HasSuffix(o, "panic") || strings.HasSuffix(o, "hang") || strings.Contains(o, "settle!") {
 				crashes++
 			}
 			out.Line("%s => %s", l, o)
